@@ -3,16 +3,23 @@
 (*   inst : package -> version present in the Python environment (NoVer = not installed)    *)
 (*   rec  : package -> pyscript's record of what it installed (config entry)                *)
 (*   mine : ghost - the version pyscript itself installed last (never forgotten)            *)
+(*   disk : the record as Home Assistant's storage holds it (the persisted config entry);   *)
+(*          dirty: a write of the config entry is pending (HA writes with a delay);         *)
+(*          fresh: no run yet since the entry in memory was loaded from storage             *)
 (* Run(lines, allow) is one start of pyscript with the given requirement lines; External    *)
-(* is anything else changing the environment (HA upgrade, user, another integration).       *)
+(* is anything else changing the environment (HA upgrade, user, another integration);       *)
+(* Flush is HA writing the pending config entry, Restart is HA stopping (final write) and   *)
+(* starting again: the record in memory is whatever storage holds.                          *)
 (* The properties restate the clauses of the statement over (state, state') independently   *)
 (* of the definitions of Select/Decide/RecordsOk, which the trace acceptor uses as oracle.  *)
 EXTENDS RequirementsCore
 
-CONSTANTS Pkgs, MaxRuns, MaxLinesPerPkg, Vers
-VARIABLES inst, rec, mine, runs, lastAct
-vars == <<inst, rec, mine, runs, lastAct>>
-View == <<inst, rec, mine, runs>>
+CONSTANTS Pkgs, MaxRuns, MaxLinesPerPkg, Vers,
+          Mode      \* "text": every kind of line text, the config entry written at once (no Flush / Restart);
+                    \* "store": plain lines only, HA's storage explicit (delayed write, Flush, Restart)
+VARIABLES inst, rec, mine, runs, lastAct, disk, dirty, fresh
+vars == <<inst, rec, mine, runs, lastAct, disk, dirty, fresh>>
+View == <<inst, rec, mine, runs, disk, dirty, fresh>>
 
 V3 == {<<1, 0>>, <<1, 1>>, <<2, 0>>}          \* with NoVer: {none, 1.0, 1.1, 2.0}
 V2 == {<<1, 0>>, <<2, 0>>}
@@ -31,8 +38,10 @@ PinL(p, v, c)  == Mk(IF c = <<>> THEN "pin" ELSE "pin_comment", p, v, <<TName(p)
 UnpL(p, c)     == Mk(IF c = <<>> THEN "unpinned" ELSE "unpinned_comment", p, NoVer, <<TName(p)>> \o c)
 GeL(p, v, c)   == Mk("ge", p, v, <<TName(p), TSym(">="), TVer(v)>> \o c)
 ComL(p, v, c)  == Mk("comment", p, v, <<TSym("#"), TWs, TName(p), TSym("=="), TVer(v)>> \o c)
-LinesOf(p) == { PinL(p, v, <<>>) : v \in Vers } \cup { PinL(p, <<1, 0, 0>>, CPlain), PinL(p, Hi, CSpec(p)), PinL(p, <<1, 0>>, CPin(p)) }
-              \cup { UnpL(p, <<>>), UnpL(p, CPin(p)) }
+LinesOf(p) == { PinL(p, v, <<>>) : v \in Vers } \cup { UnpL(p, <<>>) } \cup
+              IF Mode = "store" THEN {} ELSE
+              { PinL(p, <<1, 0, 0>>, CPlain), PinL(p, Hi, CSpec(p)), PinL(p, <<1, 0>>, CPin(p)) }
+              \cup { UnpL(p, CPin(p)) }
               \cup { GeL(p, Hi, <<>>), GeL(p, Hi, CPin(p)), ComL(p, Hi, <<>>), ComL(p, Hi, CSpec(p)) }
 Small(S) == { T \in SUBSET S : Cardinality(T) <= MaxLinesPerPkg }
 PkgSeq == CHOOSE s \in [1..Cardinality(Pkgs) -> Pkgs] : \A i, j \in 1..Cardinality(Pkgs) : i # j => s[i] # s[j]
@@ -44,6 +53,7 @@ LineFamilies == { [lines |-> F, M |-> Means(F)] : F \in Fam(1) }
 Init == /\ inst \in [Pkgs -> VerOrNone]          \* whatever Home Assistant's environment already contains
         /\ rec = [p \in Pkgs |-> NoVer] /\ mine = [p \in Pkgs |-> NoVer]
         /\ runs = 0 /\ lastAct = [k |-> "init"]
+        /\ disk = rec /\ dirty = FALSE /\ fresh = TRUE
 
 \* (the singleton quantifiers make TLC evaluate want / ins / after once per step)
 Run == /\ runs < MaxRuns
@@ -56,7 +66,10 @@ Run == /\ runs < MaxRuns
                /\ rec' = [p \in Pkgs |-> LET ok == RecordsOk(inst[p], rec[p], want[p], allow, after[p])
                                           IN IF drop /\ NoVer \in ok THEN NoVer ELSE CHOOSE r \in ok : r # NoVer \/ ok = {NoVer}]
                /\ mine' = [p \in Pkgs |-> IF p \in ins THEN after[p] ELSE mine[p]]
-               /\ lastAct' = [k |-> "run", lines |-> lines, want |-> want, allow |-> allow, ins |-> ins,
+               \* the record is persisted: a run that changes it hands the new record to HA (RecordWrite), which writes later
+               /\ IF Mode = "store" THEN dirty' = RecordWrite(rec, rec', dirty) /\ disk' = disk /\ fresh' = FALSE
+                                   ELSE dirty' = FALSE /\ disk' = rec' /\ fresh' = TRUE
+               /\ lastAct' = [k |-> "run", lines |-> lines, want |-> want, allow |-> allow, ins |-> ins, fresh |-> fresh,
                                upd |-> { p \in ins : Owned(inst[p], rec[p]) },                       \* (for the witnesses)
                                missing |-> { p \in Pkgs : inst[p] = NoVer },
                                skipped |-> { p \in Pkgs \ ins : Foreign(inst[p], rec[p]) /\ want[p].k = "pin" /\ ~VEq(want[p].v, inst[p]) }]
@@ -64,9 +77,19 @@ Run == /\ runs < MaxRuns
 
 External == /\ runs < MaxRuns
             /\ \E p \in Pkgs, v \in VerOrNone : v # inst[p] /\ inst' = [inst EXCEPT ![p] = v]
-            /\ lastAct' = [k |-> "external"] /\ UNCHANGED <<rec, mine, runs>>
+            /\ lastAct' = [k |-> "external"] /\ UNCHANGED <<rec, mine, runs, disk, dirty, fresh>>
 
-Next == Run \/ External
+\* Home Assistant writes the pending config entry (delayed save)
+Flush == /\ Mode = "store" /\ dirty /\ disk' = rec /\ dirty' = FALSE
+         /\ lastAct' = [k |-> "flush", dropped |-> { p \in Pkgs : disk[p] # NoVer /\ rec[p] = NoVer }]
+         /\ UNCHANGED <<inst, rec, mine, runs, fresh>>
+\* Home Assistant stops (final write of what is pending) and starts again: the entry is re-created from storage
+Restart == /\ Mode = "store" /\ ~fresh
+           /\ disk' = StoredAtStop(rec, disk, dirty) /\ rec' = Reloaded(disk')
+           /\ dirty' = FALSE /\ fresh' = TRUE /\ lastAct' = [k |-> "restart"]
+           /\ UNCHANGED <<inst, mine, runs>>
+
+Next == Run \/ External \/ Flush \/ Restart
 Spec == Init /\ [][Next]_vars
 
 \* ------------------------------------------------------------------ the statement
@@ -96,6 +119,10 @@ OnlyDecidedMove == [][ IsRun => Moved \subseteq A.ins ]_vars
 \* the record always matches what pyscript installed
 RecordEqualsWhatWasInstalled == \A p \in Pkgs : rec[p] # NoVer => mine[p] # NoVer /\ VEq(rec[p], mine[p])
 RecordFollowsInstall == [][ IsRun => \A p \in A.ins : rec'[p] # NoVer /\ VEq(rec'[p], inst'[p]) ]_vars
+\* ... and it is persisted: once HA has written what is pending, storage holds the record, so a restart loses nothing
+StoredRecordCurrent == ~dirty => disk = rec
+StoredEqualsWhatWasInstalled == ~dirty => \A p \in Pkgs : disk[p] # NoVer => mine[p] # NoVer /\ VEq(disk[p], mine[p])
+RestartKeepsRecord == [][ A.k = "restart" => rec' = rec ]_vars
 TypeOK == inst \in [Pkgs -> VerOrNone \cup {<<1, 0, 0>>}] /\ runs \in 0..MaxRuns
 \* the text of every line of the model means what its label says (Classify against the form table)
 LabelsOk == \A p \in Pkgs : \A l \in LinesOf(p) : LabelOk(l)
@@ -114,10 +141,15 @@ W_NoTrickyCommentLine == ~(lastAct.k = "run" /\ lastAct.allow /\ \E l \in lastAc
                                                       /\ l.p \notin lastAct.ins)
 W_NoTrickyUnpinned    == ~(lastAct.k = "run" /\ \E l \in lastAct.lines : l.f = "unpinned_comment" /\ l.tr /\ l.p \in lastAct.ins
                                                       /\ \A m \in lastAct.lines : m.p = l.p => m = l)
-NW == 8
+\* the first run after a restart updates a package pyscript installed before the restart (the record came from storage)
+W_NoOwnUpdateAfterRestart == ~(lastAct.k = "run" /\ lastAct.fresh /\ runs >= 2 /\ lastAct.upd # {})
+\* a dropped record entry reaches storage
+W_NoDropPersisted     == ~(lastAct.k = "flush" /\ lastAct.dropped # {})
+NW == 10
 Witnesses == <<W_NoForeignWithRecord, W_NoOwnUpdate, W_NoForeignSkipped, W_NoUnpinnedInstall, W_NoTie,
-               W_NoTrickyPin, W_NoTrickyCommentLine, W_NoTrickyUnpinned>>
+               W_NoTrickyPin, W_NoTrickyCommentLine, W_NoTrickyUnpinned, W_NoOwnUpdateAfterRestart, W_NoDropPersisted>>
 ASSUME \A i \in 1..NW : TLCSet(i, 0)
 WitnessTrack == \A i \in 1..NW : Witnesses[i] \/ TLCSet(i, 1)
-WitnessPost  == \A i \in 1..NW : TLCGet(i) = 1 \/ PrintT("WITNESS-MISSING " \o ToString(i))
+Wanted == IF Mode = "store" THEN {1, 2, 3, 4, 9, 10} ELSE 1..8
+WitnessPost  == \A i \in Wanted : TLCGet(i) = 1 \/ PrintT("WITNESS-MISSING " \o ToString(i))
 =============================================================================
